@@ -19,7 +19,7 @@ CONSTANTS
   SigSeqs <- NoSeqs
   BurnVals <- Vals4
   Acceptance = "written"
-  CountsUnverified = TRUE
+  CountsUnverified = FALSE
   RewardNeedsStake = TRUE
 VIEW StateView
 PROPERTIES P_C19_BurnExact P_C19_BurnGuard P_C18_NonceOnce
